@@ -7,7 +7,7 @@ Open Scope list_scope.
 Lemma stream_none : forall A (bs : list (blk A)),
   snd (stream bs) = None -> forallb good bs = true /\ fst (stream bs) = all_records bs.
 Proof.
-  intros A bs. induction bs as [|[r|m] tl IH]; simpl; intro H.
+  intros A bs. induction bs as [|[r|p0 m] tl IH]; simpl; intro H.
   - split; reflexivity.
   - destruct (IH H) as [Hg Hr]. split; [exact Hg|]. unfold all_records in *. simpl. rewrite Hr. reflexivity.
   - discriminate.
@@ -15,13 +15,13 @@ Qed.
 
 Lemma stream_some : forall A (bs : list (blk A)) m,
   snd (stream bs) = Some m ->
-  exists pre tl, bs = pre ++ BBad m :: tl /\ forallb good pre = true /\ fst (stream bs) = all_records pre.
+  exists pre p tl, bs = pre ++ BBad p m :: tl /\ forallb good pre = true /\ fst (stream bs) = all_records pre ++ p.
 Proof.
-  intros A bs m. induction bs as [|[r|m'] tl IH]; simpl; intro H.
+  intros A bs m. induction bs as [|[r|p0 m'] tl IH]; simpl; intro H.
   - discriminate.
-  - destruct (IH H) as [pre [tl' [Hb [Hg Hr]]]]. exists (BGood r :: pre), tl'. subst tl. simpl.
-    split; [reflexivity|]. split; [exact Hg|]. unfold all_records in *. simpl. rewrite Hr. reflexivity.
-  - inversion H; subst m'. exists [], tl. simpl. auto.
+  - destruct (IH H) as [pre [p [tl' [Hb [Hg Hr]]]]]. exists (BGood r :: pre), p, tl'. subst tl. simpl.
+    split; [reflexivity|]. split; [exact Hg|]. unfold all_records in *. simpl. rewrite Hr. rewrite app_assoc. reflexivity.
+  - inversion H; subst m'. exists [], p0, tl. simpl. auto.
 Qed.
 
 Theorem collect_all_or_nothing : forall A (bs : list (blk A)) xs,
@@ -31,28 +31,28 @@ Proof.
   inversion H; subst xs. apply stream_none. exact Hs.
 Qed.
 
-Theorem collect_raises_at_first_bad_block : forall A (pre : list (blk A)) m tl,
-  forallb good pre = true -> collect (pre ++ BBad m :: tl) = AvRaise m.
+Theorem collect_raises_at_first_bad_block : forall A (pre : list (blk A)) p m tl,
+  forallb good pre = true -> collect (pre ++ BBad p m :: tl) = AvRaise m.
 Proof.
-  intros A pre m tl Hg. unfold collect.
-  assert (Hs : snd (stream (pre ++ BBad m :: tl)) = Some m).
-  { induction pre as [|[r|m'] pre IH]; simpl in *; [reflexivity|apply IH; exact Hg|discriminate]. }
+  intros A pre p m tl Hg. unfold collect.
+  assert (Hs : snd (stream (pre ++ BBad p m :: tl)) = Some m).
+  { induction pre as [|[r|p0 m'] pre IH]; simpl in *; [reflexivity|apply IH; exact Hg|discriminate]. }
   rewrite Hs. reflexivity.
 Qed.
 
 Lemma bad_block_split : forall A (bs : list (blk A)),
-  forallb good bs = false -> exists pre m tl, bs = pre ++ BBad m :: tl /\ forallb good pre = true.
+  forallb good bs = false -> exists pre p m tl, bs = pre ++ BBad p m :: tl /\ forallb good pre = true.
 Proof.
-  intros A bs. induction bs as [|[r|m] tl IH]; simpl; intro H.
+  intros A bs. induction bs as [|[r|p0 m] tl IH]; simpl; intro H.
   - discriminate.
-  - destruct (IH H) as [pre [m [tl' [Hb Hg]]]]. exists (BGood r :: pre), m, tl'. subst tl. simpl. auto.
-  - exists [], m, tl. simpl. auto.
+  - destruct (IH H) as [pre [p [m [tl' [Hb Hg]]]]]. exists (BGood r :: pre), p, m, tl'. subst tl. simpl. auto.
+  - exists [], p0, m, tl. simpl. auto.
 Qed.
 
 Lemma collect_bad : forall A (bs : list (blk A)), forallb good bs = false -> exists m, collect bs = AvRaise m.
 Proof.
-  intros A bs H. destruct (bad_block_split A bs H) as [pre [m [tl [Hb Hg]]]]. exists m. subst bs.
-  apply (collect_raises_at_first_bad_block A pre m tl Hg).
+  intros A bs H. destruct (bad_block_split A bs H) as [pre [p [m [tl [Hb Hg]]]]]. exists m. subst bs.
+  apply (collect_raises_at_first_bad_block A pre p m tl Hg).
 Qed.
 
 (* ---------------------------------------------------------------- through the read pipeline *)
@@ -119,7 +119,7 @@ Definition eager_transparent : Prop := forall (mb : bytes -> list (blk dfile)) (
   fst (run_eager mb [] reads) = map (fun b => collect (mb b)) reads.
 
 Definition w_df (k : N) : dfile := {| dpath := k; dcount := 1%Z; dsum := None |}.
-Definition w_blocks (b : bytes) : list (blk dfile) := [BGood [w_df 8%N]; BBad ["EOFError"; "Exception"]%string; BGood [w_df 9%N]].
+Definition w_blocks (b : bytes) : list (blk dfile) := [BGood [w_df 8%N]; BBad [w_df 7%N] ["EOFError"; "Exception"]%string; BGood [w_df 9%N]].
 
 Definition w_blocks_sample : list (blk dfile) := w_blocks 5%N.
 
